@@ -70,34 +70,3 @@ Definition template_control_closed (t : list tnode) : bool := forallb node_close
 Theorem moq_template_control_closed : template_control_closed moq_template = true.
 Proof. vm_compute. reflexivity. Qed.
 
-(* ---- the marker ---- *)
-
-Definition marker : string := "// Code generated by moq; DO NOT EDIT.".
-
-Definition starts_with_marker (t : list tnode) : bool :=
-  match t with
-  | NText s :: _ => String.prefix (marker ++ String (ascii_of_nat 10) "") s
-  | _ => false
-  end.
-
-Theorem moq_template_marker_first : starts_with_marker moq_template = true.
-Proof. vm_compute. reflexivity. Qed.
-
-Lemma prefix_app p s t : String.prefix p s = true -> String.prefix p (s ++ t) = true.
-Proof.
-  revert s. induction p as [|c p IH]; intros s; [intros _; destruct (s ++ t); reflexivity|].
-  destruct s as [|d s]; simpl; [discriminate|].
-  destruct (Ascii.ascii_dec c d); [apply IH|discriminate].
-Qed.
-
-(* for EVERY data the template is executed on, the rendered text begins with the marker
-   line: it is the file's first line and precedes the package clause *)
-Theorem C16_marker_first_line (t : list tnode) (d : data) (out : string) :
-  starts_with_marker t = true -> render_with t d = Some out ->
-  String.prefix (marker ++ String (ascii_of_nat 10) "") out = true.
-Proof.
-  destruct t as [|[s| | | |] rest]; simpl; try discriminate. intros P.
-  unfold render_with. cbn [exec_nodes exec]. unfold oapp.
-  destruct (exec_nodes rest _) as [r|]; [|discriminate].
-  intros E. inversion E; subst. apply prefix_app. exact P.
-Qed.
